@@ -416,6 +416,11 @@ func (configgen *ConfigGeneratorImpl) buildClusters(proxy *model.Proxy, req *mod
 	for _, c := range clusters {
 		resources = append(resources, &discovery.Resource{Name: c.Name, Resource: protoconv.MessageToAny(c)})
 	}
+	// The outbound clusters were appended as (possibly cached) resources and never went through
+	// normalizeClusters: conflicting definitions (a service listing one port number twice, a
+	// DestinationRule repeating a subset name or leaving it empty, an EnvoyFilter adding a cluster named
+	// like a generated one) would put one name twice into the response, which Envoy rejects as a whole.
+	resources = cb.normalizeClusterResources(resources)
 
 	if cacheStats.empty() {
 		return resources, model.DefaultXdsLogDetails
